@@ -366,9 +366,195 @@ package commands
 //@   dead latch3
 //@ func (*github.com/git-lfs/git-lfs/v3/tq.TransferQueue).Wait
 //@   assumed
-//@   props C03
+//@   props C03 C14
 //@   modifies fresh
+//@   monitor waited[q] := true
 //@ func (*github.com/git-lfs/git-lfs/v3/tq.TransferQueue).Errors
 //@   assumed
 //@   props C03
+//@   modifies fresh
+
+// C14: the long-running filter.  Status packets: statusFromErr and
+// delayedStatusFromErr map an error to exactly the protocol's status; a
+// delayed blob is answered with "delayed" and nothing else; whatever content
+// is written is preceded by exactly one status packet and followed by exactly
+// one more after the flush; the list of available blobs is followed by one.
+//@ func statusFromErr
+//@   props C14
+//@   pure
+//@   ensures result == ite(err != nil && err != io.EOF, git.StatusError, git.StatusSuccess)
+//@ func delayedStatusFromErr
+//@   props C14
+//@   pure
+//@   ensures result == ite(err != nil && err != io.EOF, git.StatusError, git.StatusDelay)
+//@ func delayedSmudge
+//@   props C14
+//@   requires @inv gf != nil && s != nil && q != nil && from != nil && to != nil
+//@   ensures result1 ==> stcount(s) == old(stcount(s)) && result3 == nil && result2 != nil && qadds(q) == old(qadds(q)) + 1
+//@   ensures !result1 ==> qadds(q) == old(qadds(q)) && stcount(s) <= old(stcount(s)) + 1
+//@   ensures !result1 && result3 == nil ==> stcount(s) == old(stcount(s)) + 1
+//@   at call tools.Spool:1 assert stcount(s) == old(stcount(s)) + 1
+//@   at call (*lfs.GitFilter).Smudge:1 assert stcount(s) == old(stcount(s)) + 1
+//@   at call (*lfs.Pointer).Encode:1 assert stcount(s) == old(stcount(s)) + 1
+//@   at call (*tq.TransferQueue).Add:1 assert stcount(s) == old(stcount(s)) && arg1__ == filename
+//@ func (*github.com/git-lfs/git-lfs/v3/git.FilterProcessScanner).WriteStatus
+//@   assumed
+//@   props C14
+//@   modifies fresh, ghost stcount[o]
+//@   ensures stcount(o) == old(stcount(o)) + 1
+//@ func (*github.com/git-lfs/git-lfs/v3/git.FilterProcessScanner).WriteList
+//@   assumed
+//@   props C14
+//@   modifies fresh, ghost listcount[o]
+//@   ensures listcount(o) == old(listcount(o)) + 1
+//@ func github.com/git-lfs/git-lfs/v3/tools.Spool
+//@   assumed
+//@   props C14
+//@   modifies all
+//@ func (*github.com/git-lfs/git-lfs/v3/lfs.Pointer).Encode
+//@   assumed
+//@   props C14
+//@   modifies all
+
+// A content-less smudge request (the retrieval of a delayed blob) is answered
+// from the pointer remembered for that path; a request that carries content is
+// answered from that content, whole.
+//@ func incomingOrCached
+//@   props C14
+//@   requires @inv r != nil && reads_ok(r)
+//@   requires @inv reads_progress(r)
+//@   ensures len(old(rrest(r))) == 0 && ptr != nil ==> result1 == nil && (ptr.Size != 0 ==> rrest(result0) == penc(ptr)) && (ptr.Size == 0 ==> rrest(result0) == "")
+//@   ensures len(old(rrest(r))) == 0 && ptr == nil ==> result1 == nil && rrest(result0) == ""
+//@   ensures len(old(rrest(r))) > 0 ==> rrest(result0) == old(rrest(r))
+
+
+// The buffer between the transfer queue and list_available_blobs: every
+// transfer taken from the queue's watch channel is either forwarded at once or
+// kept, in order, and forwarded later - none is lost and none is sent twice.
+//@ func infiniteTransferBuffer
+//@   props C14
+//@   requires @inv q != nil
+//@   loop 1 invariant chsent(available) - old(chsent(available)) + len(pending) == chrecvd(watch) - old(chrecvd(watch))
+//@   loop 2 invariant chsent(available) - old(chsent(available)) + (len(pending) - (rangeindex + 1)) == chrecvd(watch) - old(chrecvd(watch))
+//@   loop 2 invariant rangeindex >= -1 && rangeindex + 1 <= len(pending)
+//@   at loop 2 entry assert chsent(available) - old(chsent(available)) + len(pending) == chrecvd(watch) - old(chrecvd(watch))
+//@   at call close:1 assert chsent(available) - old(chsent(available)) == chrecvd(watch) - old(chrecvd(watch))
+//@   at call close:2 assert chsent(available) - old(chsent(available)) == chrecvd(watch) - old(chrecvd(watch))
+//@ func (*github.com/git-lfs/git-lfs/v3/tq.TransferQueue).Watch
+//@   assumed
+//@   props C14
+//@   modifies fresh
+
+// The request loop.  Per request: clean and non-delayed smudge write one
+// status, then content, then (after the flush) one more; a delayed smudge
+// writes nothing but the final "delayed"; list_available_blobs writes the list
+// and one status.  Every transfer queue that was started for delayed blobs is
+// told to finish (Wait) at the first list_available_blobs after it was
+// created - once per queue, not once per process.
+//@ func filterCommand
+//@   props C14
+//@   loop 2 invariant q == nil || (closeOnce != nil && (oncedone(closeOnce) ==> waited(q)))
+//@   loop 2 iter stcount(s) >= iter(stcount(s)) + 1 && stcount(s) <= iter(stcount(s)) + 2
+//@   loop 2 iter delayed ==> stcount(s) == iter(stcount(s)) + 1
+//@   at call commands.clean:1 assert stcount(s) == iter2(stcount(s)) + 1
+//@   at call commands.smudge:1 assert stcount(s) == iter2(stcount(s)) + 1
+//@   at call commands.delayedSmudge:1 assert stcount(s) == iter2(stcount(s))
+//@   at call (*git.FilterProcessScanner).WriteList:1 assert stcount(s) == iter2(stcount(s))
+//@   at call commands.readAvailable:1 assert waited(q)
+// Set-up, the one-shot filters and output helpers used by the loop (assumed frames).
+//@ func requireStdin
+//@   assumed
+//@   props C14
+//@   noeffect
+//@ func setupRepository
+//@   assumed
+//@   props C14
+//@   modifies fresh
+//@ func installHooks
+//@   assumed
+//@   props C14
+//@   modifies fresh
+//@ func github.com/git-lfs/git-lfs/v3/git.NewFilterProcessScanner
+//@   assumed
+//@   props C14
+//@   modifies fresh
+//@   ensures result != nil && isfresh(result)
+//@ func (*github.com/git-lfs/git-lfs/v3/git.FilterProcessScanner).Init
+//@   assumed
+//@   props C14
+//@   modifies fresh
+//@ func (*github.com/git-lfs/git-lfs/v3/git.FilterProcessScanner).NegotiateCapabilities
+//@   assumed
+//@   props C14
+//@   modifies fresh
+//@ func (*github.com/git-lfs/git-lfs/v3/git.FilterProcessScanner).Scan
+//@   assumed
+//@   props C14
+//@   modifies fresh, fields o
+//@   ensures result ==> o.req != nil && o.req.Header != nil && o.req.Payload != nil
+//@ func smudge
+//@   assumed
+//@   props C14
+//@   modifies all
+//@ func readAvailable
+//@   assumed
+//@   props C14
+//@   modifies fresh
+//@ func pathnames
+//@   assumed
+//@   props C14
+//@   modifies fresh
+//@ func possiblyMalformedObjectSize
+//@   assumed
+//@   props C14
+//@   noeffect
+//@ func currentRemoteRef
+//@   assumed
+//@   props C14
+//@   modifies fresh
+//@ func github.com/git-lfs/git-lfs/v3/tq.NewTransferQueue
+//@   assumed
+//@   props C14
+//@   modifies fresh
+//@   ensures result != nil && isfresh(result)
+//@ func github.com/git-lfs/git-lfs/v3/git.FirstRemoteForTreeish
+//@   assumed
+//@   props C14
+//@   modifies fresh
+//@ func github.com/git-lfs/git-lfs/v3/filepathfilter.New
+//@   assumed
+//@   props C14
+//@   modifies fresh
+//@ func github.com/git-lfs/git-lfs/v3/lfs.NewGitFilter
+//@   assumed
+//@   props C14
+//@   modifies fresh
+//@   ensures result != nil
+//@ func (*github.com/git-lfs/git-lfs/v3/config.Configuration).Remote
+//@   assumed
+//@   props C14
+//@   modifies fresh
+//@ func (*github.com/git-lfs/git-lfs/v3/config.Configuration).SetRemote
+//@   assumed
+//@   props C14
+//@   modifies fresh
+//@ func (*github.com/git-lfs/git-lfs/v3/config.Configuration).AutoDetectRemoteEnabled
+//@   assumed
+//@   props C14
+//@   modifies fresh
+//@ func (*github.com/git-lfs/git-lfs/v3/config.Configuration).TransferBatchSize
+//@   assumed
+//@   props C14
+//@   modifies fresh
+//@ func (*github.com/git-lfs/git-lfs/v3/config.Configuration).FetchIncludePaths
+//@   assumed
+//@   props C14
+//@   modifies fresh
+//@ func (*github.com/git-lfs/git-lfs/v3/config.Configuration).FetchExcludePaths
+//@   assumed
+//@   props C14
+//@   modifies fresh
+//@ func github.com/git-lfs/git-lfs/v3/git.IsGitVersionAtLeast
+//@   assumed
+//@   props C14
 //@   modifies fresh
